@@ -93,3 +93,10 @@ CLAIMS['C06'] = dict(
           'as the one-shot hash; that the xorb-hash producer, the uploader and both validators aggregate through the single merge core (hash_node_sequence -> compute_internal_node_hash, one caller) with (hash, length) leaves; '
           'and that the range-verification hash is one keyed hash over all input hashes in order. Equality with an independent implementation, collision behaviour and text-form round trips are value-level and not decided.'),
     note='R06b is a convergence (sufficient) fact: a behaviour-preserving re-implementation of the merge in one validator would be reported as "cannot establish agreement" by design (three copies of a persistent identity function are the hazard).')
+CLAIMS['C12'] = dict(
+    technique='static analysis: typestate by who-may-call/construct + edge dominance (hit only after verified-or-checksum-equal), reader/writer token agreement, guarded-index census on the scan path',
+    text=('Decides: entries loaded from disk are unverified until a whole-file checksum matched; a cell is born verified only after its file was closed successfully; a hit is returned only on the verified or '
+          'checksum-equal edge and its payload comes from the file opened in that iteration; damaged/missing/unparsable entries are removed and the lookup retried; the scan tracks a file only when its '
+          'on-disk length equals the length in its name; name and header writers/readers walk the same token tables; range-index operations on bytes decoded from directory entries are guarded (no panic on '
+          'planted names). Typestate and dominance facts hold for every history and for every content found on disk at re-open. Sub-range slicing arithmetic, model equivalence across histories and interleavings are not decided.'),
+    note='K10 is decided in release semantics; the debug-only prefix assertion in initialize_state is listed as information.')
